@@ -94,6 +94,11 @@ def _merge_stubs_members(obj: Module | Class, stubs: Module | Class) -> None:
                     _merge_function_stubs(obj_member, stub_member)  # type: ignore[arg-type]
                 elif obj_member.is_attribute:
                     _merge_attribute_stubs(obj_member, stub_member)  # type: ignore[arg-type]
+            # The stub object goes away: aliases that were resolved to it while the stubs module
+            # stood for the module (it was found first) now point at the member of the concrete module.
+            for alias in list(stub_member.aliases.values()):
+                with suppress(AliasResolutionError, CyclicAliasError):
+                    alias.target = obj_member
         else:
             stub_member.runtime = False
             obj.set_member(member_name, stub_member)
